@@ -15,9 +15,19 @@ Tie (route C):
     translation / permutation runs of the implementation.
   * arclen_2d_bounded / area_3d_bounded directly against the same reference on
     generic float inputs (walls, corners, circles larger than the box, size-0/1
-    arrays).
+    arrays, arcs just above / below the NaN threshold).
+Tie (route T, edge-correction formulas): tools/py2coq_static.py re-translates the
+CURRENT text of trackpy/static.py (circle_cap_arclen, circle_corner_arclen,
+sphere_cap_area, sphere_edge_area, sphere_corner_area, arclen_2d_bounded,
+area_3d_bounded; _protect_mask analysed) into coq/Gen/static_geom.v on every run;
+Proofs/StaticGen.v proves each generated function equal to the hand-written model
+and Properties/C19.v restates the headline theorem about the generated function.
+A translation error or a proof that no longer closes goes through
+chk.proof_broken; the run then doubles the direct comparison of the
+implementation with the independent geometric reference, so that a concrete
+failing (dist, pos, box) is reported with its replay when one exists.
 """
-import math, random, json
+import math, random, json, os, sys, hashlib
 import numpy as np
 import pandas as pd
 from fractions import Fraction
@@ -25,6 +35,8 @@ import common, staticgeom as sg
 from common import cnat, cZ, cQ, cN, clist, copt
 
 IMPORTS = "From TP Require Import Model.StaticCluster Model.StaticPairCorr."
+TRANSLATOR = os.path.join(common.VERIF, 'tools', 'py2coq_static.py')
+GEN = os.path.join(common.COQ, 'Gen', 'static_geom.v')
 
 CL_CODES = {0: 'ok', 1: 'wrong number of labels/sizes', 2: 'cluster labels are not the connectivity partition (features within separation chains labelled differently, or unconnected features labelled alike)',
             3: 'cluster_size is not the size of the connected component', 4: 'a cluster id is reused in two frames'}
@@ -35,6 +47,73 @@ GR_CODES = {0: 'ok', 1: 'wrong number of bins', 2: 'g(r) differs from the correc
 
 def F(x):
     return Fraction(x) if not isinstance(x, float) else Fraction(*x.as_integer_ratio())
+
+
+# ---------------------------------------------------------------------------
+# translator / build
+# ---------------------------------------------------------------------------
+def regenerate(chk):
+    """re-run the translator on the current source; returns (ok, text-or-log)"""
+    rc, out = common.sh([sys.executable, TRANSLATOR, '--repo', common.REPO, '--stdout'], timeout=60)
+    if rc != 0:
+        return False, out
+    with common.Lock(os.path.join(common.COQ, '.build.lock')):
+        old = open(GEN).read() if os.path.exists(GEN) else None
+        if old != out:
+            os.makedirs(os.path.dirname(GEN), exist_ok=True)
+            tmp = GEN + '.tmp%d' % os.getpid()
+            with open(tmp, 'w') as f:
+                f.write(out)
+            os.replace(tmp, GEN)
+            chk.tally('Gen/static_geom.v rewritten (source differs from last run)')
+        else:
+            chk.tally('Gen/static_geom.v unchanged')
+    return True, out
+
+
+def ensure_models(chk):
+    """Model/StaticCluster.vo and Model/StaticPairCorr.vo (executable models of the correspondence run) do not
+    depend on the generated file: they are needed even when a geometry proof is broken by a changed formula"""
+    def fresh(v):
+        vo = os.path.join(common.COQ, v + 'o')
+        return os.path.exists(vo) and os.path.getmtime(vo) >= os.path.getmtime(os.path.join(common.COQ, v))
+    files = ('Model/StaticCluster.v', 'Model/StaticPairCorr.v')
+    if all(fresh(v) for v in files):
+        return True
+    with common.Lock(os.path.join(common.COQ, '.build.lock')):
+        rc, out = common.sh('timeout 600 make %s 2>&1 | tail -40' % ' '.join(v + 'o' for v in files), timeout=630, cwd=common.COQ)
+        if not all(fresh(v) for v in files):
+            chk.proof_broken('Model/StaticCluster.v / Model/StaticPairCorr.v (executable models do not build)', out)
+            return False
+    return True
+
+
+def build(chk):
+    """translator -> cone of Properties/C19.v.  False when the translation or a proof failed."""
+    ok, text = regenerate(chk)
+    if not ok:
+        chk.proof_broken('translation tools/py2coq_static.py (an edge-correction function left the translatable subset)', text)
+        chk.build = dict(obligations=0, discharged=0, assumptions=[], files=[], theorems=[])
+        return False
+    for attempt in range(3):
+        b = chk.coq()
+        cur = open(GEN).read()
+        if cur == text:
+            break
+        # another run (different TRACKPY_REPO) rewrote the generated file in between: redo
+        chk.violations = [v for v in chk.violations if not v[0].startswith('proof:')]
+        regenerate(chk)
+    chk.notes.append('Gen/static_geom.v sha1 %s generated from %s' % (hashlib.sha1(text.encode()).hexdigest()[:12], common.REPO))
+    if not b['ok']:
+        # say which re-proof about the generated functions fails (the generic report only names the first stale file)
+        with common.Lock(os.path.join(common.COQ, '.build.lock')):
+            rc, out = common.sh('timeout 600 make Proofs/StaticGen.vo 2>&1 | tail -40', timeout=630, cwd=common.COQ)
+            vo, gvo = os.path.join(common.COQ, 'Proofs', 'StaticGen.vo'), os.path.join(common.COQ, 'Gen', 'static_geom.vo')
+            stale = not (os.path.exists(vo) and os.path.exists(gvo) and os.path.getmtime(vo) >= os.path.getmtime(gvo))
+        if stale and open(GEN).read() == text:
+            chk.violations = [v for v in chk.violations if not v[0].startswith('proof:')]
+            chk.proof_broken('Proofs/StaticGen.v (a function generated from the current trackpy/static.py no longer equals the model the geometry theorems are about)', out)
+    return bool(b['ok'])
 
 
 def is_pow2(fr):
@@ -560,7 +639,23 @@ def eval_gr(chk, cases, rng=None, metamorphic=True):
 # ---------------------------------------------------------------------------
 # edge-correction geometry, directly
 # ---------------------------------------------------------------------------
+def gen_tiny_arc_case(rng):
+    """2-D, centre in a box corner, circle just short of the opposite corner: the part inside is a short arc near
+    that corner, of angular measure about eps * (a/b + b/a).  Exercises the NaN mask for vanishing arcs
+    (threshold 1e-5 in angle) from both sides; eval_geom skips the band [0.5, 2] x threshold."""
+    a, b = rng.uniform(1, 8), rng.uniform(1, 8)
+    x0, y0 = rng.choice([0.0, rng.uniform(-5, 5)]), rng.choice([0.0, rng.uniform(-5, 5)])
+    box = [[x0, x0 + a], [y0, y0 + b]]
+    a, b = box[0][1] - box[0][0], box[1][1] - box[1][0]
+    m = rng.choice([rng.uniform(2.5e-5, 9e-5), rng.uniform(1e-4, 1e-3), rng.uniform(1e-6, 4e-6)])
+    eps = m / (a / b + b / a)
+    corner = [box[0][rng.randrange(2)], box[1][rng.randrange(2)]]
+    return dict(ndim=2, box=box, pos=[corner], dist=[math.hypot(a, b) * (1 - eps)])
+
+
 def gen_geom_case(rng, ndim):
+    if ndim == 2 and rng.random() < 0.04:
+        return gen_tiny_arc_case(rng)
     L = [rng.uniform(1, 12) for _ in range(ndim)]
     lo = [rng.choice([0.0, rng.uniform(-5, 5)]) for _ in range(ndim)]
     box = [[lo[k], lo[k] + L[k]] for k in range(ndim)]
@@ -685,7 +780,8 @@ def corpus():
 # ---------------------------------------------------------------------------
 def run(chk):
     common.quiet_trackpy()
-    chk.coq()
+    built = build(chk)
+    ensure_models(chk)
     rng = chk.rng
     q = chk.tier == 'quick'
     import time
@@ -702,7 +798,11 @@ def run(chk):
     kept = eval_gr(chk, cgr + [gen_gr_case(rng, chk.tier, 2) for _ in range(100 if q else 700)]
                    + [gen_gr_case(rng, chk.tier, 3) for _ in range(35 if q else 250)], rng=rng)
     t4 = time.time()
-    for c in cgeom + [gen_geom_case(rng, 2) for _ in range(1500 if q else 8000)] + [gen_geom_case(rng, 3) for _ in range(300 if q else 2000)]:
+    ng2, ng3 = (1500, 300) if q else (8000, 2000)
+    if not built:
+        ng2, ng3 = 2 * ng2, 2 * ng3      # proof / translation broken: search harder for the concrete failing (dist, pos, box)
+        chk.tally('edge-correction search doubled (translation or proof broken)')
+    for c in cgeom + [gen_geom_case(rng, 2) for _ in range(ng2)] + [gen_geom_case(rng, 3) for _ in range(ng3)]:
         eval_geom(chk, c)
     t5 = time.time()
     chk.notes.append('wall seconds: cluster %.1f, from_pairs %.1f, proximity %.1f, g(r) %.1f, edge corrections %.1f' % (t1 - t0, t2 - t1, t3 - t2, t4 - t3, t5 - t4))
@@ -720,14 +820,20 @@ def run(chk):
         "float distance arithmetic agrees with exact arithmetic on lattice inputs; pairs exactly at a separation that is not a power of two are skipped and counted",
         "np.histogram's propagation of a NaN weight into all later bins is not part of the model: bins from the first NaN bin on are not compared",
         "the edge measure enters the g(r) model as a table computed by vp/staticgeom.py (wall crossings in 2-D, hat-box quadrature in 3-D; agreement with trackpy's closed forms is what is checked, to 1e-9 r / 1e-8 r^2)",
-        "3-D closed forms sphere_edge_area / sphere_corner_area: only consistency identities are proved; their correctness as areas is covered numerically",
+        "3-D closed forms sphere_edge_area / sphere_corner_area: only consistency identities are proved; their correctness as areas is covered numerically; "
+        "area_3d_bounded is proved to be the area inside the box only when the faces within reach are perpendicular to one axis (C19_area_3d_single_cap_partial), "
+        "the area being measured in the axial parametrisation about that axis (area element r dphi dt and independence of the axis: classical, not proved)",
+        "Gen/static_geom.v is produced by tools/py2coq_static.py (trusted translator, fail-closed; conventions in its docstring: one point of the numpy vector code over R, "
+        "acc[mask] -= v read as acc - (if mask then v else 0), _protect_mask checked by abstract evaluation to be the elementwise conditional, 10**-5 / 10**-7 as exact "
+        "reals, NaN as None; acos / asin / sqrt / division are total in Coq: the generated functions speak for the code where numpy stays in the domains, i.e. centre in the closed box, dist > 0)",
         "pair_correlation refuses (RuntimeError, or IndexError/ValueError when its neighbour estimate max_p_count <= 1) instead of returning g(r) on sparse inputs; counted, not compared",
     ]
 
 
 def replay(chk, path):
     common.quiet_trackpy()
-    chk.coq()
+    build(chk)
+    ensure_models(chk)
     r = json.load(open(path))['replay']
     kind = r.get('kind')
     if kind == 'cluster':
@@ -761,4 +867,7 @@ def replay(chk, path):
     elif kind == 'geom':
         eval_geom(chk, r['case'])
     else:
-        print('replay: nothing executable in this replay file (proof/correspondence breakage): see its log field')
+        print('replay: nothing executable in this replay file (proof/translation breakage): see its log field; searching numerically')
+        rng = random.Random(0)
+        for c in corpus()[2] + [gen_geom_case(rng, 2) for _ in range(1500)] + [gen_geom_case(rng, 3) for _ in range(300)]:
+            eval_geom(chk, c)
